@@ -110,8 +110,11 @@ pub fn source_with(case: &Json, trig_override: Option<bool>) -> String {
     let trig_retain = case["trig_retain"].as_bool().unwrap_or(false);
     let mut s = String::from(
         "TYPE Color : (Red, Green, Blue); END_TYPE\nTYPE Pt : STRUCT x : DINT; y : REAL; END_STRUCT END_TYPE\n\n\
-FUNCTION_BLOCK Acc\nVAR_INPUT d : DINT; END_VAR\nVAR_OUTPUT sum : DINT; END_VAR\nVAR n : DINT; END_VAR\nn := n + 1;\nsum := sum + d + 1;\nEND_FUNCTION_BLOCK\n\nCONFIGURATION C\n",
+FUNCTION_BLOCK Acc\nVAR_INPUT d : DINT; END_VAR\nVAR_OUTPUT sum : DINT; END_VAR\nVAR n : DINT; END_VAR\nn := n + 1;\nsum := sum + d + 1;\nEND_FUNCTION_BLOCK\n\n\
+FUNCTION_BLOCK Gate\nVAR\n  sensor AT %IX3.0 : BOOL;\nEND_VAR\nVAR_OUTPUT\n  lamp AT %QX5.0 : BOOL;\n  hits : INT;\nEND_VAR\nlamp := sensor;\nIF sensor THEN hits := hits + INT#1; END_IF;\nEND_FUNCTION_BLOCK\n\nCONFIGURATION C\n",
     );
+    // a configuration-level FB instance owning %I/%Q variables and the target of an access path
+    s.push_str("VAR_GLOBAL\n  door : Gate;\nEND_VAR\n");
     s.push_str(&format!(
         "{}\n  trig : BOOL := {};\nEND_VAR\n",
         if trig_retain { "VAR_GLOBAL RETAIN" } else { "VAR_GLOBAL" },
@@ -127,7 +130,7 @@ FUNCTION_BLOCK Acc\nVAR_INPUT d : DINT; END_VAR\nVAR_OUTPUT sum : DINT; END_VAR\
         _ => "",
     };
     s.push_str(&format!("PROGRAM {inst}P1 WITH Cy : Main (fb WITH Ev);\nPROGRAM P2 WITH Ev : Other;\nPROGRAM P3 : Bg;\n"));
-    s.push_str("VAR_ACCESS\n  A1 : P1.acc_d : DINT READ_WRITE;\n  A2 : P1.acc_a[1] : INT READ_WRITE;\nEND_VAR\nEND_CONFIGURATION\n\n");
+    s.push_str("VAR_ACCESS\n  A1 : P1.acc_d : DINT READ_WRITE;\n  A2 : P1.acc_a[1] : INT READ_WRITE;\n  A3 : door.hits : INT READ_WRITE;\nEND_VAR\nEND_CONFIGURATION\n\n");
     s.push_str("PROGRAM Main\nVAR_EXTERNAL\n");
     for v in vars.iter().filter(|v| v.global) {
         let ty = decl(&v.shape, 0);
@@ -139,13 +142,13 @@ FUNCTION_BLOCK Acc\nVAR_INPUT d : DINT; END_VAR\nVAR_OUTPUT sum : DINT; END_VAR\
         s.push_str(&format!("{}\n  {} : {};\nEND_VAR\n", block(&v.qual, false), v.name, decl(&v.shape, v.init)));
     }
     s.push_str(
-        "VAR\n  fb : Acc;\n  acc_d : DINT;\n  acc_a : ARRAY[0..2] OF INT;\n  t : DINT;\n  in_w AT %IW0 : INT;\n  in_b AT %IX2.0 : BOOL;\n  out_d AT %QD0 : DINT;\n  out_x AT %QX4.0 : BOOL;\n  out_fb AT %QD8 : DINT;\n  out_a AT %QW12 : INT;\nEND_VAR\n",
+        "VAR\n  fb : Acc;\n  acc_d : DINT;\n  acc_a : ARRAY[0..2] OF INT;\n  t : DINT;\n  seen : INT;\n  in_w AT %IW0 : INT;\n  in_b AT %IX2.0 : BOOL;\n  out_d AT %QD0 : DINT;\n  out_x AT %QX4.0 : BOOL;\n  out_fb AT %QD8 : DINT;\n  out_a AT %QW12 : INT;\nEND_VAR\n",
     );
     for v in &vars {
         s.push_str(&update(&v.shape, &v.name));
         s.push('\n');
     }
-    s.push_str("t := 1000 / (in_w - 77);\n");
+    s.push_str("door();\nseen := door.hits;\nt := 1000 / (in_w - 77);\n");
     let dints: Vec<&VarSpec> = vars.iter().filter(|v| v.shape == "dint").collect();
     let mut sum = String::from("acc_d");
     for v in &dints {
@@ -213,7 +216,7 @@ fn retained(v: &VarSpec) -> bool {
 }
 
 /// unqualified program-level variables of Main besides the generated ones (FB instances are never retainable)
-const FIXED_UNQUALIFIED: &[&str] = &["acc_d", "acc_a", "t", "in_w", "in_b", "out_d", "out_x", "out_fb", "out_a"];
+const FIXED_UNQUALIFIED: &[&str] = &["acc_d", "acc_a", "t", "seen", "in_w", "in_b", "out_d", "out_x", "out_fb", "out_a"];
 
 /// the model's retained set: (global?, name). `PROGRAM RETAIN P1 : Main` makes the *unqualified* program
 /// variables retentive; explicit NON_RETAIN blocks keep their own qualifier.
@@ -264,6 +267,9 @@ fn classify_path(path: &str, vars: &[VarSpec], trig_retain: bool) -> String {
     }
     if path.starts_with("P1.fb.") {
         return "task-fb-instance".to_string();
+    }
+    if path.starts_with("door.") {
+        return "global-fb-instance".to_string();
     }
     if path.starts_with("P2.") {
         return "event-task-program".to_string();
@@ -370,7 +376,7 @@ impl Check for C09Check {
                 2 | 3 => ops.push(json!({"k": "restart", "mode": "cold"})),
                 4 => ops.push(json!({"k": "save", "fail": o.chance(1, 4)})),
                 5 => ops.push(json!({"k": "power_cycle"})),
-                6 => ops.push(json!({"k": "access_write", "name": if o.bool() { "A1" } else { "A2" }, "val": o.range(-100, 100)})),
+                6 => ops.push(json!({"k": "access_write", "name": *o.pick(&["A1", "A2", "A3"]), "val": o.range(-100, 100)})),
                 7 => ops.push(json!({"k": "cycle", "dt": 10_000_000, "in_w": 77, "in_b": false})), // value fault
                 _ => {
                     let dt = *o.pick(&[0i64, 1_000_000, 10_000_000, 10_000_000, 25_000_000]);
@@ -388,13 +394,14 @@ impl Check for C09Check {
             "inst_qual": *cfg.pick(&["none", "none", "retain", "non_retain"]),
             "trig_init": cfg.chance(1, 2),
             "trig_retain": cfg.chance(1, 3),
+            "file_store": rng.fork("store").chance(1, 3),
             "periodic_save_ms": if periodic_save { Json::from(*o.pick(&[0i64, 10, 30])) } else { Json::Null },
             "ops": ops,
         })
     }
 
     fn run(&self, case: &Json, stats: &mut Stats) -> Result<(), Violation> {
-        for p in ["probe.warm_after_state_change", "probe.cold_after_state_change", "probe.power_cycle_with_saved_data", "probe.event_task_ran_after_restart", "probe.restart_with_single_true", "probe.access_write_after_restart", "probe.restart_while_faulted", "probe.periodic_save_observed", "probe.runner_style_warm_restart"] {
+        for p in ["probe.warm_after_state_change", "probe.cold_after_state_change", "probe.power_cycle_with_saved_data", "probe.event_task_ran_after_restart", "probe.restart_with_single_true", "probe.access_write_after_restart", "probe.restart_while_faulted", "probe.periodic_save_observed", "probe.runner_style_warm_restart", "probe.file_retain_store"] {
             stats.add(p, 0);
         }
         let src = source_for(case);
@@ -403,6 +410,15 @@ impl Check for C09Check {
         let trig_spec = VarSpec { name: "trig".into(), global: true, qual: if trig_retain { "retain".into() } else { "none".into() }, shape: "bool".into(), init: 0 };
         let mut real = build(&src)?;
         let store = world::SimRetainStore::new();
+        if case["file_store"].as_bool().unwrap_or(false) {
+            // the durable copy goes through the real codec and a real file (FileRetainStore)
+            let dir = crate::framework::scratch_dir().join(format!("c09-{}", std::process::id()));
+            let _ = std::fs::create_dir_all(&dir);
+            let path = dir.join("retain.bin");
+            let _ = std::fs::remove_file(&path);
+            store.0.lock().unwrap().via_file = Some(path);
+            stats.inc("probe.file_retain_store");
+        }
         let save_interval = case["periodic_save_ms"].as_i64().map(Duration::from_millis);
         real.rt.set_retain_store(Some(Box::new(store.clone())), save_interval);
         let mut twin: Option<Side> = None;
@@ -557,6 +573,7 @@ impl Check for C09Check {
                     let mut bytes = vec![0u8; IN_LEN];
                     bytes[0..2].copy_from_slice(&in_w.to_le_bytes());
                     bytes[2] = u8::from(in_b);
+                    bytes[3] = (in_w as u8) & 1;
                     let mut results = vec![];
                     let mut ran = vec![];
                     let was_faulted = real.rt.faulted();
